@@ -336,6 +336,21 @@ def handle : Handler := fun op inp impl =>
     { agree := canonMD (hsAsMD implHs) == canonMD (hsAsMD mHs) && canonMD (nonEmpty back) == canonMD (nonEmpty m),
       holds := holds, nontrivial := claimed && h.length > 1, model := canonJson "k" (canonMD m),
       why := if holds then "" else "http.Header -> ConvertToProtoHeader -> AddHeaders does not hold every value of every key" }
+  | "getrt" =>
+    let fail := str (field impl "fail")
+    if fail != "" then { agree := false, holds := false, why := "GET message round trip: " ++ fail } else
+    let data := unhex (str (field inp "data"))
+    let b64p := bool (field inp "base64")
+    let sent := unhex (str (field impl "sent"))
+    let param := unhex (str (field impl "param"))
+    -- the parameter the server received is the sender's encoding of the message bytes, and reads back to them
+    let mParam := if b64p then ConfModel.Base64.encodeURLPadded sent else sent
+    let paramReads := if b64p then ConfModel.Base64.decodeURLPadded param == some sent else param == sent
+    let holds := nat (field impl "status") == 200 && bool (field impl "decoded") && unhex (str (field impl "data")) == data && paramReads
+    { agree := param == mParam && holds, holds := holds, nontrivial := !data.isEmpty, model := hex mParam,
+      cls := (if bool (field inp "json") then "json" else "proto") ++ (if b64p then "+base64" else ""),
+      why := if holds then "" else
+        s!"the request message of a Connect GET ({hex sent}) sent by the reference client's raw request sender does not reach the reference server's handler unchanged: status {nat (field impl "status")}, message parameter received {hex param}, decoded request data {str (field impl "data")}" }
   | _ => bad ("C18: unknown op " ++ op)
 
 end ConfModel.Driver.C18
